@@ -156,11 +156,113 @@ theorem isIdent_chars {k : Name} (h : isIdent k = true) :
     · exact (isIdentChar_ne _ (hall _ hm)).2.1 rfl
     · exact (isIdentChar_ne _ (hall _ hm)).2.2 rfl
 
-theorem small_index_facts : ∀ i : Fin 10,
-    padIdx 1 i.val = [Char.ofNat (48 + i.val)] ∧ (natStr i.val).length = 1 ∧
-    parseGroups 4 ('[' :: (padIdx 1 i.val ++ [']'])) = some [(i.val : Int)] ∧
-    '[' ∉ padIdx 1 i.val ∧ ']' ∉ padIdx 1 i.val ∧ '.' ∉ padIdx 1 i.val := by
-  decide
+theorem digit_char_facts : ∀ d : Fin 10,
+    isDigit (Char.ofNat (48 + d.val)) = true ∧ (Char.ofNat (48 + d.val)).toNat - 48 = d.val ∧
+    Char.ofNat (48 + d.val) ≠ ' ' ∧ Char.ofNat (48 + d.val) ≠ ']' ∧ Char.ofNat (48 + d.val) ≠ '[' ∧
+    Char.ofNat (48 + d.val) ≠ '.' ∧ Char.ofNat (48 + d.val) ≠ '-' ∧
+    (d.val ≠ 0 → Char.ofNat (48 + d.val) ≠ '0') := by decide
+
+theorem digitsVal_append : ∀ (a b : Name) (acc : Nat), digitsVal (a ++ b) acc = digitsVal b (digitsVal a acc)
+  | [], _, _ => rfl
+  | c :: a, b, acc => by simp only [List.cons_append, digitsVal]; exact digitsVal_append a b _
+
+/-- the decimal digits `natDigits` writes: all digits, non-empty, read back as `n`, no leading zero -/
+theorem natDigits_spec : ∀ (fuel n : Nat), n < fuel →
+    (natDigits fuel n).all isDigit = true ∧ natDigits fuel n ≠ [] ∧ digitsVal (natDigits fuel n) 0 = n ∧
+    (∀ c r, natDigits fuel n = c :: r → c ≠ '0' ∨ r = []) ∧
+    (∀ c ∈ natDigits fuel n, c ≠ ' ' ∧ c ≠ ']' ∧ c ≠ '[' ∧ c ≠ '.' ∧ c ≠ '-')
+  | 0, _, h => by omega
+  | fuel + 1, n, h => by
+    by_cases hn : n < 10
+    · have hf := digit_char_facts ⟨n, hn⟩
+      simp only at hf
+      simp only [natDigits, hn, if_true]
+      refine ⟨by simp [hf.1], by simp, by simp [digitsVal, hf.2.1], ?_, ?_⟩
+      · intro c r e
+        simp only [List.cons.injEq] at e
+        exact Or.inr e.2.symm
+      · intro c hc
+        simp only [List.mem_singleton] at hc
+        subst hc
+        exact ⟨hf.2.2.1, hf.2.2.2.1, hf.2.2.2.2.1, hf.2.2.2.2.2.1, hf.2.2.2.2.2.2.1⟩
+    · have hlt : n / 10 < fuel := by omega
+      obtain ⟨h1, h2, h3, h4, h5⟩ := natDigits_spec fuel (n / 10) hlt
+      have hd := digit_char_facts ⟨n % 10, Nat.mod_lt _ (by omega)⟩
+      simp only at hd
+      simp only [natDigits, hn, if_false]
+      refine ⟨?_, by simp, ?_, ?_, ?_⟩
+      · simp [List.all_append, h1, hd.1]
+      · rw [digitsVal_append, h3]
+        simp only [digitsVal, hd.2.1]
+        omega
+      · intro c r e
+        cases hq : natDigits fuel (n / 10) with
+        | nil => exact absurd hq h2
+        | cons c' r' =>
+          rw [hq] at e
+          simp only [List.cons_append, List.cons.injEq] at e
+          left
+          rw [← e.1]
+          -- the leading digit of n/10 (which is ≥ 1)
+          have hge : 1 ≤ n / 10 := by omega
+          rcases h4 c' r' hq with hc | hr
+          · exact hc
+          · subst hr
+            intro hz
+            subst hz
+            rw [hq] at h3
+            simp [digitsVal] at h3
+            omega
+      · intro c hc
+        simp only [List.mem_append, List.mem_singleton] at hc
+        rcases hc with hc | rfl
+        · exact h5 c hc
+        · exact ⟨hd.2.2.1, hd.2.2.2.1, hd.2.2.2.2.1, hd.2.2.2.2.2.1, hd.2.2.2.2.2.2.1⟩
+
+theorem parseInt_natStr (n : Nat) : parseInt (natStr n) = some (n : Int) := by
+  obtain ⟨h1, h2, h3, h4, h5⟩ := natDigits_spec (n + 1) n (by omega)
+  unfold natStr
+  cases hq : natDigits (n + 1) n with
+  | nil => exact absurd hq h2
+  | cons c r =>
+    rw [hq] at h1 h3
+    have hc : c ≠ '-' := (h5 c (by rw [hq]; simp)).2.2.2.2
+    have h40 := h4 c r hq
+    unfold parseInt
+    split
+    rename_i neg ds heq
+    split at heq
+    · rename_i r' e
+      simp only [List.cons.injEq] at e
+      exact absurd e.1 hc
+    simp only [Prod.mk.injEq] at heq
+    obtain ⟨rfl, rfl⟩ := heq
+    simp only [h1, h40, and_self, if_true, h3]
+    rfl
+
+/-- **a right-aligned index reads back as the index** -/
+theorem parseIdx_padIdx (w n : Nat) : parseIdx (padIdx w n) = some (n : Int) := by
+  obtain ⟨_, h2, _, _, h5⟩ := natDigits_spec (n + 1) n (by omega)
+  unfold parseIdx padIdx
+  have : (List.replicate (w - (natStr n).length) ' ' ++ natStr n).dropWhile (· = ' ') = natStr n := by
+    cases hq : natStr n with
+    | nil => exact absurd hq (by unfold natStr; exact h2)
+    | cons c r =>
+      have hc : c ≠ ' ' := (h5 c (by have : natStr n = natDigits (n + 1) n := rfl; rw [← this, hq]; simp)).1
+      have := dropWhile_append_stop (fun x => decide (x = ' ')) (List.replicate (w - (c :: r).length) ' ') c r
+        (by intro x hx; simp [List.eq_of_mem_replicate hx]) (by simpa using hc)
+      simpa using this
+  simp only [this]
+  exact parseInt_natStr n
+
+theorem padIdx_chars (w n : Nat) : ∀ c ∈ padIdx w n, c ≠ ']' ∧ c ≠ '[' ∧ c ≠ '.' := by
+  obtain ⟨_, _, _, _, h5⟩ := natDigits_spec (n + 1) n (by omega)
+  intro c hc
+  simp only [padIdx, List.mem_append] at hc
+  rcases hc with hc | hc
+  · rw [List.eq_of_mem_replicate hc]; decide
+  · have := h5 c hc
+    exact ⟨this.2.1, this.2.2.1, this.2.2.2.1⟩
 
 theorem beforeBracket_append (k x : Name) (hk : '[' ∉ k) : beforeBracket (k ++ '[' :: x) = k := by
   unfold beforeBracket
@@ -170,34 +272,20 @@ theorem fromBracket_append (k x : Name) (hk : '[' ∉ k) : fromBracket (k ++ '['
   unfold fromBracket
   exact dropWhile_append_stop _ k '[' x (by intro c hc; have : c ≠ '[' := fun e => hk (e ▸ hc); simpa using this) (by simp)
 
-theorem parseSeg_idxSeg (k : Name) (i : Nat) (hk : isIdent k = true) (hi : i < 10) :
-    parseSeg (idxSeg k 1 i) = some (k, [(i : Int)]) := by
+/-- the segment `k[ i]` that iteration writes for an element of a list of mappings reads back as
+`(k, [i])`, whatever the width of the index field -/
+theorem parseSeg_idxSeg (k : Name) (w i : Nat) (hk : isIdent k = true) :
+    parseSeg (idxSeg k w i) = some (k, [(i : Int)]) := by
   have hb := (isIdent_chars hk).2.2.1
-  have hf := small_index_facts ⟨i, hi⟩
-  simp only at hf
+  have hch := padIdx_chars w i
   unfold parseSeg idxSeg
   rw [beforeBracket_append k _ hb, fromBracket_append k _ hb]
   simp only [hk, true_and, ne_eq, reduceCtorEq, not_false_eq_true, if_true]
-  have hlen : ('[' :: (padIdx 1 i ++ [']'])).length + 1 = 4 := by simp [hf.1]
-  rw [hlen, hf.2.2.1]
+  simp only [List.length_cons, parseGroups]
+  rw [takeWhile_append_stop _ (padIdx w i) ']' [] (by intro x hx; simpa using (hch x hx).1) (by simp),
+    dropWhile_append_stop _ (padIdx w i) ']' [] (by intro x hx; simpa using (hch x hx).1) (by simp)]
+  simp only [if_true, parseIdx_padIdx, parseGroups]
   rfl
-
-
-mutual
-/-- lists of mappings have at most 10 elements (beyond that `iteritems` pads the index with spaces) -/
-def shortT : Tree → Bool
-  | .leaf _ => true
-  | .node kvs => shortK kvs
-  | .list xs => (!allNodes xs || decide (xs.length ≤ 10)) && shortL xs
-def shortK : Kvs → Bool
-  | [] => true
-  | (_, v) :: r => shortT v && shortK r
-def shortL : List Tree → Bool
-  | [] => true
-  | x :: r => shortT x && shortL r
-end
-
-theorem natStr_small (n : Nat) (h : n < 10) : (natStr n).length = 1 := (small_index_facts ⟨n, h⟩).2.1
 
 theorem listGet_drop : ∀ (xs : List Tree) (i j : Nat), listGet (xs.drop i) j = listGet xs (i + j)
   | [], i, j => by simp [listGet]
@@ -433,37 +521,17 @@ theorem itemsP_iff : ∀ (kvs : Kvs) (p : List Name) (v : Tree), (keysK kvs).Nod
         exact Or.inr ⟨k', val', hl, he⟩
 
 
-theorem shortK_lookup {kvs : Kvs} {k : Name} {v : Tree} (h : shortK kvs = true) (hl : lookupK k kvs = some v) :
-    shortT v = true := by
-  induction kvs with
-  | nil => simp [lookupK] at hl
-  | cons hd tl ih =>
-    obtain ⟨k', v'⟩ := hd
-    simp only [shortK, Bool.and_eq_true] at h
-    by_cases hk : k = k'
-    · subst hk; simp [lookupK] at hl; subst hl; exact h.1
-    · simp [lookupK, hk] at hl; exact ih h.2 hl
-
-theorem shortL_listGet : ∀ {xs : List Tree} {j : Nat} {v : Tree}, shortL xs = true → listGet xs j = some v →
-    shortT v = true
-  | [], _, _, _, h => by simp [listGet] at h
-  | x :: _, 0, v, hw, h => by
-    simp only [listGet, Option.some.injEq] at h; subst h
-    simp only [shortL, Bool.and_eq_true] at hw; exact hw.1
-  | _ :: r, j + 1, v, hw, h => by
-    simp only [listGet] at h
-    simp only [shortL, Bool.and_eq_true] at hw
-    exact shortL_listGet hw.2 h
-
 theorem textSeg_ident {k : Name} (h : isIdent k = true) : TextSeg k := by
   obtain ⟨h1, h2, h3, h4⟩ := isIdent_chars h
   refine ⟨h1, h2, ?_⟩
   simp [balanced, opens, closes, List.count_eq_zero.mpr h3, List.count_eq_zero.mpr h4]
 
-theorem textSeg_idxSeg {k : Name} (h : isIdent k = true) (j : Nat) (hj : j < 10) : TextSeg (idxSeg k 1 j) := by
+theorem textSeg_idxSeg {k : Name} (h : isIdent k = true) (w j : Nat) : TextSeg (idxSeg k w j) := by
   obtain ⟨h1, h2, h3, h4⟩ := isIdent_chars h
-  obtain ⟨_, _, _, f3, f4, f5⟩ := small_index_facts ⟨j, hj⟩
-  simp only at f3 f4 f5
+  have hch := padIdx_chars w j
+  have f3 : '[' ∉ padIdx w j := fun hm => (hch _ hm).2.1 rfl
+  have f4 : ']' ∉ padIdx w j := fun hm => (hch _ hm).1 rfl
+  have f5 : '.' ∉ padIdx w j := fun hm => (hch _ hm).2.2 rfl
   refine ⟨by simp [idxSeg], ?_, ?_⟩
   · simp [idxSeg, h2, f5]
   · simp [balanced, opens, closes, idxSeg, List.count_append,
@@ -472,13 +540,12 @@ theorem textSeg_idxSeg {k : Name} (h : isIdent k = true) (j : Nat) (hj : j < 10)
 
 /-- **every listed key looks up to the listed value** (path form), and the listed segments are
 proper components -/
-theorem itemsP_get : ∀ (p : List Name) (kvs : Kvs) (v : Tree), wfK isIdent kvs = true → shortK kvs = true →
+theorem itemsP_get : ∀ (p : List Name) (kvs : Kvs) (v : Tree), wfK isIdent kvs = true →
     (p, v) ∈ itemsP kvs → getK kvs p none = .ok v ∧ ∀ m ∈ p, TextSeg m
-  | [], kvs, v, _, _, h => absurd rfl (itemsP_ne kvs [] v h)
-  | m :: p', kvs, v, hw, hs, h => by
+  | [], kvs, v, _, h => absurd rfl (itemsP_ne kvs [] v h)
+  | m :: p', kvs, v, hw, h => by
     obtain ⟨k, val, hl, he⟩ := (itemsP_iff kvs (m :: p') v (wfK_nodup hw)).mp h
     obtain ⟨hk, hwv⟩ := wfK_lookup hw hl
-    have hsv := shortK_lookup hs hl
     have hkb := (isIdent_chars hk).2.2.1
     cases he with
     | leaf hv =>
@@ -487,7 +554,7 @@ theorem itemsP_get : ∀ (p : List Name) (kvs : Kvs) (v : Tree), wfK isIdent kvs
       simp [segGet, hkb, hl]
     | @down sub _ _ hval hne hm =>
       subst hval
-      have ih := itemsP_get p' sub v (by simpa [wfT] using hwv) (by simpa [shortT] using hsv) hm
+      have ih := itemsP_get p' sub v (by simpa [wfT] using hwv) hm
       have hp' := itemsP_ne sub p' v hm
       refine ⟨?_, ?_⟩
       · rw [getK]
@@ -500,27 +567,20 @@ theorem itemsP_get : ∀ (p : List Name) (kvs : Kvs) (v : Tree), wfK isIdent kvs
     | @elem xs j sub _ _ hval hne ha hg hm =>
       subst hval
       simp only [wfT] at hwv
-      simp only [shortT, ha, Bool.not_true, Bool.false_or, Bool.and_eq_true, decide_eq_true_eq] at hsv
       have hjl := listGet_lt _ _ _ hg
-      have hj10 : j < 10 := by omega
-      have hw1 : idxWidth xs = 1 := by
-        unfold idxWidth
-        exact natStr_small _ (by omega)
       have hwsub := wfL_listGet hwv hg
-      have hssub := shortL_listGet hsv.2 hg
-      have ih := itemsP_get p' sub v (by simpa [wfT] using hwsub) (by simpa [shortT] using hssub) hm
+      have ih := itemsP_get p' sub v (by simpa [wfT] using hwsub) hm
       have hp' := itemsP_ne sub p' v hm
-      rw [hw1]
       refine ⟨?_, ?_⟩
       · rw [getK]
-        have hbr : '[' ∈ idxSeg k 1 j := by simp [idxSeg]
-        simp only [segGet, hbr, if_true, evalSeg, parseSeg_idxSeg k j hk hj10, hl, subscripts, subscript,
+        have hbr : '[' ∈ idxSeg k (idxWidth xs) j := by simp [idxSeg]
+        simp only [segGet, hbr, if_true, evalSeg, parseSeg_idxSeg k (idxWidth xs) j hk, hl, subscripts, subscript,
           normIndex_nat _ _ hjl, hg]
         simp [hp', ih.1]
       · intro x hx
         simp only [List.mem_cons] at hx
         rcases hx with rfl | hx
-        · exact textSeg_idxSeg hk j hj10
+        · exact textSeg_idxSeg hk (idxWidth xs) j
         · exact ih.2 x hx
 
 
@@ -559,11 +619,11 @@ theorem chain_joinDots (fixed : Bool) (p : List Name) (hp : p ≠ []) (h : ∀ m
 
 /-- **every listed key looks up to the listed value, and is a member** -/
 theorem items_lookup (cfg : Cfg) (kvs : Kvs) (hw : wfK isIdent kvs = true)
-    (hs : shortK kvs = true) (k : Name) (v : Tree) (h : (k, v) ∈ items (.node kvs)) :
+    (k : Name) (v : Tree) (h : (k, v) ∈ items (.node kvs)) :
     getT cfg (.node kvs) k = .ok v ∧ containsT cfg (.node kvs) k = .ok true := by
   simp only [items, itemsK_eq, List.mem_map, Prod.mk.injEq, Prod.exists] at h
   obtain ⟨p, v', hm, rfl, rfl⟩ := h
-  obtain ⟨hg, ht⟩ := itemsP_get p kvs v' hw hs hm
+  obtain ⟨hg, ht⟩ := itemsP_get p kvs v' hw hm
   have hc := chain_joinDots cfg.fixResolve p (itemsP_ne kvs p v' hm) ht
   have : getT cfg (.node kvs) (joinDots p) = .ok v' := by
     simp only [getT, hc, rootKvs, hg]
